@@ -248,6 +248,7 @@ type request struct {
 	Presented string // id presented through the configured source ("" = nothing presented)
 	Class     string // how the id was chosen (jar, old, forged-random, …)
 	Cookie    string // `source` family: an id additionally presented as a cookie of the same name
+	Fault     string // "", "get-first", "get-outage": Storage.Get fails during this request
 	Ops       []op
 }
 
